@@ -19,8 +19,9 @@ def make_aspire(target: smcrun.Target, dims=2, half=10.0, flow_seed=3, xp_name="
     from aspire import Aspire
 
     params = [f"p{i}" for i in range(dims)]
+    bounds = kw.pop("prior_bounds", {p: [-half, half] for p in params})      # `prior_bounds=None`: an analysis that declares no bounds
     return Aspire(log_likelihood=target.log_likelihood, log_prior=target.log_prior, dims=dims, parameters=params,
-                  prior_bounds={p: [-half, half] for p in params}, flow_backend="verifstub", xp=ns.get_xp(xp_name),
+                  prior_bounds=bounds, flow_backend="verifstub", xp=ns.get_xp(xp_name),
                   dtype=dtype, seed=flow_seed, **kw)
 
 
